@@ -66,7 +66,7 @@ def scenarios(rng, g):
     base = g.schema()
     doc = g.document(base)
     kind = rng.choice(['plain', 'plain', 'type', 'hash', 'string', 'context', 'subclass_rule', 'subclass_type', 'corrupt',
-                       'corrupt', 'corrupt', 'corrupt', 'nested_list', 'nested_list', 'registry', 'recursive', 'recursive_rules', 'role', 'role', 'nest', 'nest'])
+                       'corrupt', 'corrupt', 'corrupt', 'nested_list', 'nested_list', 'registry', 'recursive', 'recursive_rules', 'role', 'role', 'nest', 'nest', 'none_rule', 'none_rule', 'of_partial', 'of_partial'])
     e = lambda: rng.choice(['ctor', 'setter', 'update'])
     if kind == 'plain':
         other = g.schema()
@@ -82,6 +82,43 @@ def scenarios(rng, g):
             steps.append(('V', bad, doc, e(), None))
             if rng.random() < 0.3:
                 steps.append(('V', base, doc, e(), None))
+        return kind, steps
+    if kind == 'none_rule':
+        # a rule whose constraint is None, added to a rule set of a schema that is already cached: the rule set is not
+        # the cached one and None is not a legal constraint of these rules
+        positions = list(schemas.rule_sets(base))
+        var = copy.deepcopy(base)
+        if positions:
+            path, rules, _ = positions[rng.randrange(len(positions))]
+            free = [r for r in ('required', 'readonly', 'nullable', 'empty', 'minlength', 'maxlength', 'regex', 'allowed',
+                                'forbidden', 'dependencies', 'excludes', 'type') if r not in rules]
+            schemas._follow(var, path)[rng.choice(free)] = None
+        else:
+            base, var, doc = {'f': {'type': 'string'}}, {'f': {'type': 'string', 'required': None}}, {}
+        steps = [('V', base, doc, e(), None), ('V', var, doc, e(), None)]
+        if rng.random() < 0.5:
+            steps.append(('V', {'w': {'type': 'dict', 'schema': copy.deepcopy(var)}}, {}, e(), None))
+        return kind, steps
+    if kind == 'of_partial':
+        # a list of *of definitions with a malformed member is rejected whatever the other members are, and the malformed
+        # member is rejected again when it comes back in another list, alone, or as a rule set of its own
+        goods = [{'type': 'string'}, {'type': 'integer', 'min': rng.randrange(5)}, {'nullable': True}, {'maxlength': 3},
+                 {'type': ['integer', 'string']}, {'allowed': [1, 2]}]
+        bad = copy.deepcopy(rng.choice(goods))
+        r = rng.choice(['required', 'minlength', 'regex', 'allowed', 'type', 'nullable', 'empty', 'no_such_rule', 'min', 'dependencies'])
+        bad[r] = 'no_such_type' if r == 'type' else 1 if r == 'no_such_rule' else copy.deepcopy(schemas.BAD_CONSTRAINTS[r])
+        ops = ['anyof', 'allof', 'oneof', 'noneof']
+        first = [copy.deepcopy(rng.choice(goods)) for _ in range(rng.randrange(0, 3))]
+        first.insert(rng.randrange(len(first) + 1), copy.deepcopy(bad))
+        if rng.random() < 0.7:
+            first.append(copy.deepcopy(rng.choice(goods)))          # the last member is well-formed
+        later = [copy.deepcopy(rng.choice(goods)) for _ in range(rng.randrange(0, 2))]
+        later.insert(rng.randrange(len(later) + 1), copy.deepcopy(bad))
+        steps = [('V', {'f': {rng.choice(ops): first}}, {}, e(), None), ('V', {'g': {rng.choice(ops): later}}, {}, e(), None)]
+        if rng.random() < 0.5:
+            steps.append(('V', {'h': {'type': 'dict', 'valuesrules': copy.deepcopy(bad)}}, {}, e(), None))
+        if rng.random() < 0.5:
+            steps.append(('V', {'i': {rng.choice(ops): [copy.deepcopy(bad)]}}, {}, e(), None))
         return kind, steps
     if kind == 'nested_list':
         # a list constraint and the same list wrapped in a list must not share a key
@@ -299,6 +336,23 @@ def variants(rng, m):
     m2 = copy.deepcopy(m)
     m2['extra_key'] = 1
     out.append(('extra key', m2))
+    m3 = copy.deepcopy(m)
+    m3['extra_none'] = None
+    out.append(('extra key with None', m3))
+    if m:
+        k0 = rng.choice(sorted(m, key=repr))
+        out.append(('value->None', {k: (None if k == k0 else v) for k, v in m.items()}))
+        out.append(('key dropped vs None', {k: v for k, v in m.items() if k != k0}))
+    m4 = copy.deepcopy(m)
+    for k, v in m4.items():
+        if isinstance(v, dict):
+            v['extra_none'] = None
+            out.append(('nested extra key with None', m4))
+            break
+        if isinstance(v, list) and v and isinstance(v[0], dict):
+            v[0]['extra_none'] = None
+            out.append(('nested extra key with None', m4))
+            break
     out.append(('list->[list]', {k: ([v] if isinstance(v, list) and v else v) for k, v in m.items()}))
     out.append(('[x,y]->[[x],y]', {k: ([[v[0]]] + list(v[1:]) if isinstance(v, list) and len(v) > 1 else v) for k, v in m.items()}))
     return out
@@ -307,7 +361,7 @@ def variants(rng, m):
 def run(ctx, n):
     ctx.cov['rule'] = ('histories of 2-4 submissions across Validator and three subclasses (plain, corrupted, equal constraint of a '
                        'different Python type, colliding integer hash, string vs characters, rule context, subclass-only rule, '
-                       'subclass-only type) through constructor / setter / update, warm vs cache cleared before every submission; '
+                       'subclass-only type, a None-valued rule added to a cached rule set, a malformed *of member coming back in other lists) through constructor / setter / update, warm vs cache cleared before every submission; '
                        'hkey port: Lean cache key vs mapping_hash on variant pairs; non-trivial = a history whose later step '
                        'depends on an earlier one; distinct by scenario and schemas')
     ctx.assumptions.append('string hashing is assumed collision free; the key of the model identifies exactly what '
